@@ -119,7 +119,24 @@ def h : Handler := fun op j =>
         | .ok .null => .ok none
         | .ok v => do pure (some (← asInt v))
         | _ => .error "!bad-arg:n")
-      pure (showRes (do let e ← e; rmulPy n e))
+      -- optional "mult": what __rmul__ inspects of the multiplier object (checked against the plain description "n")
+      match j.getObjVal? "mult" with
+      | .ok mj => do
+          let a ← getStr mj "attr"
+          let attr ← (match a with
+            | "missing" => pure IsIntegerAttr.missing
+            | "method" => do pure (IsIntegerAttr.method (← getBool mj "ret"))
+            | "value" => (match mj.getObjVal? "ret" with
+                | .ok .null => pure (IsIntegerAttr.value none)
+                | .ok (.bool b) => pure (IsIntegerAttr.value (some b))
+                | _ => .error "!bad-arg:ret")
+            | _ => .error "!bad-arg:attr")
+          let m : PyMul := ⟨attr, ← getBool mj "pyint", ← getRat mj "val"⟩
+          let r1 := showRes (do let e ← e; rmulMul m e)
+          let r2 := showRes (do let e ← e; rmulPy n e)
+          -- both descriptions of the same multiplier must give the same outcome
+          if r1 == r2 then pure r1 else pure s!"!mult-mismatch:{r1}<>{r2}"
+      | .error _ => pure (showRes (do let e ← e; rmulPy n e))
   | "checks" => do
       let r ← getPairs j "reac"; let p ← getPairs j "prod"
       let ir ← getPairs j "ireac"; let ip ← getPairs j "iprod"
